@@ -673,7 +673,32 @@ def run_check(pid, tier, seed):
             return prop.compare(r["obs"], m) is not None
 
         shrunk_dis = []
+        hist_found = None
         for i, d in disagreements[:3]:
+            # a disagreement that does not show when the case runs alone in a spawned interpreter depends
+            # on what the worker did before: rebuild that history, and ask the oracle after it
+            if b.driver_ok and hist_found is None:
+                try:
+                    alone = run_fresh(prop, [cases[i]])[-1]
+                    m_alone = run_model_many(prop, [prop.model_input(cases[i], alone["obs"])])[0] if alone["obs"] is not None else None
+                    alone_dis = m_alone is not None and prop.compare(alone["obs"], m_alone) is not None
+                except Exception:
+                    alone_dis = True
+                if not alone_dis:
+                    def dis_after(hist, last):
+                        rr = run_fresh(prop, list(hist) + [last])[-1]
+                        if rr["obs"] is None:
+                            return False
+                        mm = run_model_many(prop, [prop.model_input(last, rr["obs"])])[0]
+                        return prop.compare(rr["obs"], mm) is not None
+                    hist = worker_history(cases, impl, i)
+                    if dis_after(hist, cases[i]):
+                        hist = shrink_history(prop, hist, cases[i], dis_after, seconds=45)
+                        rr = run_fresh(prop, hist + [cases[i]])[-1]
+                        bad_h = [f for f in rr["oracle"] if prop.classify(cases[i], f) not in finding_ids]
+                        hist_found = {"history": hist, "case": cases[i], "observed": rr["obs"],
+                                      "observed_alone": alone["obs"], "failures": bad_h,
+                                      "diff": prop.compare(rr["obs"], run_model_many(prop, [prop.model_input(cases[i], rr["obs"])])[0])}
             small = shrink(prop, cases[i], disagrees, budget=150) if b.driver_ok else cases[i]
             _worker_init(pid)
             r = _worker_run(small)
@@ -697,7 +722,17 @@ def run_check(pid, tier, seed):
                         found = (c, bad, r["obs"])
                         break
         search_info = {"tried": tried, "found": bool(found)}
-        if found:
+        if not found and hist_found and hist_found["failures"]:
+            path = write_replay(pid, "violation", {
+                "property": pid, "kind": "oracle-failure-history-dependent-after-broken-correspondence", "seed": seed, "tier": tier,
+                "history": hist_found["history"], "case": hist_found["case"], "failures": hist_found["failures"],
+                "observed": hist_found["observed"], "observed_alone": hist_found["observed_alone"],
+                "broken_obligations": what,
+                "note": "the case agrees with the model in a fresh process and fails after the listed history: state leaks between calls",
+            })
+            violations.append((path, ""))
+            search_info["found"] = True
+        elif found:
             case, bad, obs = found
             small = shrink(prop, case, oracle_fails)
             _worker_init(pid)
@@ -713,6 +748,7 @@ def run_check(pid, tier, seed):
                 "property": pid, "kind": "obligation-broken-no-failing-input", "seed": seed, "tier": tier,
                 "broken_obligations": what,
                 "correspondence_disagreements": shrunk_dis,
+                "history_dependent_disagreement": ({k: hist_found[k] for k in ("history", "case", "observed", "observed_alone", "diff")} if hist_found else None),
                 "n_disagreements": len(disagreements),
                 "searched_inputs": tried,
                 "build_output_tail": b.output[-2500:] if (not b.proof_ok or not b.driver_ok) else "",
